@@ -69,6 +69,7 @@ type HCase struct {
 	TimeOff   int64      `json:"time_off"`
 	MixBad    bool       `json:"mix_bad,omitempty"`
 	Cht       bool       `json:"cht,omitempty"`
+	Before    []HCase    `json:"before,omitempty"`     // what the same Server verified earlier (replay runs them first)
 	SelfCanon int        `json:"self_canon,omitempty"` // the chain already holds, as canonical at this height, a header with the SAME hash (stored by an earlier seal=false pass): 1 the header itself, 2 its variant without vote container and certificate
 	ParentRef int        `json:"parent_ref"`           // index into Chain of the header whose hash is ParentHash; -1 = some other hash
 	Verdict   int        `json:"verdict"`
@@ -603,11 +604,17 @@ func (hc *HCase) pickAC(num uint64) (ChainHdr, bool) {
 
 func (g *gen) hcase(res *vf.Result) HCase {
 	r := g.r
-	ac := r.Chance(14)
+	ac := r.Chance(14) && !g.hplain
+	if g.hplain {
+		g.plain, g.plainAll = true, true
+	}
 	g.forceCert = ac
 	c := g.one(res)
+	if g.hplain {
+		g.plain, g.plainAll = false, false
+	}
 	g.forceCert = false
-	hc := HCase{Kind: "header", C: c, Seal: !r.Chance(12)}
+	hc := HCase{Kind: "header", C: c, Seal: g.hplain || !r.Chance(12)}
 	if ac {
 		hc.Kind, hc.Cht = "ac", true
 	}
@@ -695,7 +702,7 @@ func (g *gen) hcase(res *vf.Result) HCase {
 	hc.Readers = []ReaderS{{VR: 0}, {VR: 1}, {VR: decoyVR, LB: g.lookback(nKeys, false)}}
 	// forgeries of the selection / frame
 	tag := "none"
-	if r.Chance(50) {
+	if !g.hplain && r.Chance(50) {
 		k := r.Intn(16)
 		if ac {
 			k = int(r.Pick([]uint64{3, 4, 5, 9, 12, 13, 14, 15}))
@@ -807,7 +814,7 @@ func (g *gen) hcase(res *vf.Result) HCase {
 	// the validator set changes along the chain.  VR 0 / 1 are the sets the header's votes were
 	// made by; "older" is what the set looked like before a member joined, came online or raised
 	// its stake, "newer" what it looks like afterwards.
-	if !ac {
+	if !ac && !g.hplain {
 		seedN, stakeN := lbnum(n, exp.SeedLB), lbnum(n, exp.StakeLB)
 		es, ek := ents[seedN], ents[stakeN]
 		if es != nil && ek != nil && seedN != stakeN && ek.VR == 0 {
@@ -840,7 +847,7 @@ func (g *gen) hcase(res *vf.Result) HCase {
 	}
 	// the same-hash header is already canonical at this height (a header-only pass stored it
 	// without looking at its votes); the votes of the one under verification must still count
-	if !ac && r.Chance(18) {
+	if !ac && !g.hplain && r.Chance(18) {
 		if _, other := ents[n]; !other && !hc.MixBad {
 			hc.SelfCanon = 1 + r.Intn(2)
 			res.Count("hforge:same_hash_header_already_canonical")
